@@ -55,6 +55,7 @@ def _engine_tasks(what, args):
         tasks = [{**t, "cfg": {"profile": what.lower()}} for t in driver.seeds_for(args.seed, what, n)]
         if what == "C11" and not getattr(args, "no_sweep", False) and args.what != "digests":
             tasks += crashpoint_sweep_tasks(eng, args)
+            tasks += call_phase_sweep_tasks(args)
         return eng, tasks
     if what == "C09":
         from . import bussim as eng
@@ -70,6 +71,32 @@ SWEEP_TYPES_THOROUGH = ["Node", "ListNode", "Tree", "RA", "RB", "LinkedInt", "Li
 SIBLING = {"Outer1": "Outer2", "Outer2": "Outer1", "Holder": "Node", "Node": "Holder", "ListNode": "Node", "RA": "RB", "RB": "RA",
            "LinkedInt": "LinkedStr", "LinkedStr": "LinkedInt", "GInt": "GListInt", "OptNode": "Node", "DictStrNode": "ListNode",
            "UM1M3": "ListM1", "ListM1": "DictStrM1", "Tree": "Tree"}
+
+
+CALL_SWEEP = [("ListInt", "lbad", "l1"), ("SetInt", "lbad", "l1"), ("TupIntEll", "lbad", "l1"), ("DequeInt", "lbad", "l1"),
+              ("DictStrInt", "dbad", "dA1"), ("ListM1", "lm_bad", "lm"), ("ListListInt", "ll_bad", "ll"), ("ListInt", "lbad2", "l1"),
+              ("Node", "node4_bad", "node4"), ("UListIntStr", "lbad", "l1")]
+
+
+def call_phase_sweep_tasks(args):
+    """Crash points inside *calls*: a load of data whose first element is bad is interrupted at its k-th
+    function entry (k = 1..25), then valid and invalid data are loaded through the same (cached) loader."""
+    tasks = []
+    trails = ["ALL", "FIRST", "DISABLE"]
+    for ti, (t, bad, good) in enumerate(CALL_SWEEP):
+        for k in range(1, 26):
+            for ei, exc in enumerate(("base", "recursion")):
+                if args.tier != "thorough" and (k + ei + ti) % 2:
+                    continue
+                opts = {"strict_coercion": (k + ti) % 3 != 0, "debug_trail": trails[(k + ei) % 3]}
+                handle = {"base": "Retort", "recipe": "plain", "opts": opts}
+                prog = [{"op": "load", "h": 0, "t": t, "d": bad}, {"op": "load", "h": 0, "t": t, "d": good},
+                        {"op": "load", "h": 0, "t": t, "d": bad}, {"op": "dump", "h": 0, "t": t, "o": __import__("vsim.pools", fromlist=["x"]).dump_battery(t)[0]}]
+                tasks.append({"scenario": {"engine": "histsim", "profile": "c11", "seed": f"callsweep:{t}:{bad}:{exc}:{k}",
+                                           "handles": [handle], "ops": prog,
+                                           "faults": [{"kind": "interrupt", "op": 0, "when": "call", "k": k, "exc": exc}],
+                                           "norm_cache": 128, "focus": ["sweep"], "sweep": {"type": t, "call": True}}})
+    return tasks
 
 
 def crashpoint_sweep_tasks(eng, args):
@@ -135,22 +162,43 @@ C12_SWEEP_BASES = [
     ("plain", ("load", "Holder", "holder"), ("load", "Unsupported", "unsupported")),
     ("nm_camel_shared", ("dump", "RB", "o_rb"), ("dump", "RA", "o_ra")),
     ("plain", ("load", "ULM1LM2", "lm"), ("load", "ULM2LM1", "lm")),
+    # 12: a thread derives a retort (replace) from a warm shared retort while another thread makes a first-time request
+    ("plain", ("replace", {"strict_coercion": False}), ("load", "Tree", "tree3"), [("load", "Node", "node4")]),
+    # 13: the same with extend
+    ("plain", ("extend", "chain_int_last"), ("dump", "RA", "o_ra"), [("load", "Holder", "holder")]),
+    # 14: two threads building converters at once, one from a stub with extra parameters
+    ("conv", ("get_converter", "M1M2"), ("get_converter", "Outer"), []),
 ]
 
 
 C12_INSTR_SWEEP_BASES = {0, 3, 9}
-C12_QUICK_SITE_SWEEP = [(0, 0), (3, 0), (9, 0), (9, 1)]     # (base index, primary thread)
+C12_QUICK_SITE_SWEEP = [(0, 0), (3, 0), (9, 0), (9, 1), (12, 0), (13, 0)]     # (base index, primary thread)
 
 
 def _sweep_base(bi):
-    recipe, a, b = C12_SWEEP_BASES[bi]
+    entry = C12_SWEEP_BASES[bi]
+    recipe, a, b = entry[:3]
+    prologue = entry[3] if len(entry) > 3 else []
 
     def mk(o):
-        return ({"op": "load", "h": 0, "t": o[1], "d": o[2]} if o[0] == "load"
-                else {"op": "dump", "h": 0, "t": o[1], "o": o[2]})
-    handle = {"base": "Retort", "recipe": recipe,
-              "opts": {"strict_coercion": bi % 2 == 0, "debug_trail": ["ALL", "FIRST", "DISABLE"][bi % 3]}}
-    return {"engine": "schedsim", "cluster": "sweep", "handle": handle, "threads": [[mk(a)], [mk(b)]], "norm_cache": 128}
+        if o[0] == "load":
+            return {"op": "load", "h": 0, "t": o[1], "d": o[2]}
+        if o[0] == "dump":
+            return {"op": "dump", "h": 0, "t": o[1], "o": o[2]}
+        if o[0] == "replace":
+            return {"op": "replace", "h": 0, "opts": o[1]}
+        if o[0] == "extend":
+            return {"op": "extend", "h": 0, "recipe": o[1]}
+        if o[0] == "get_converter":
+            return {"op": "get_converter", "h": 0, "conv": o[1]}
+        raise ValueError(o)
+    if recipe == "conv":
+        handle = {"base": "ConversionRetort", "recipe": "plain"}
+    else:
+        handle = {"base": "Retort", "recipe": recipe,
+                  "opts": {"strict_coercion": bi % 2 == 0, "debug_trail": ["ALL", "FIRST", "DISABLE"][bi % 3]}}
+    return {"engine": "schedsim", "cluster": "sweep", "handle": handle, "prologue": [mk(o) for o in prologue],
+            "threads": [[mk(a)], [mk(b)]], "norm_cache": 128}
 
 
 def site_sweep_tasks(eng, args):
@@ -185,20 +233,15 @@ def preemption_sweep_tasks(eng, args):
     tasks = []
     chosen = getattr(args, "sweep_bases", None)
     chosen = None if not chosen else {int(x) for x in chosen.split(",")}
-    for bi, (recipe, a, b) in enumerate(C12_SWEEP_BASES):
+    for bi in range(len(C12_SWEEP_BASES)):
         if chosen is not None and bi not in chosen:
             continue
-
-        def mk(o):
-            return ({"op": "load", "h": 0, "t": o[1], "d": o[2]} if o[0] == "load"
-                    else {"op": "dump", "h": 0, "t": o[1], "o": o[2]})
-        handle = {"base": "Retort", "recipe": recipe,
-                  "opts": {"strict_coercion": bi % 2 == 0, "debug_trail": ["ALL", "FIRST", "DISABLE"][bi % 3]}}
-        progs = [[mk(a)], [mk(b)]]
+        a, b = C12_SWEEP_BASES[bi][1], C12_SWEEP_BASES[bi][2]
+        base0 = _sweep_base(bi)
         for t in (0, 1):
             if t == 1 and a == b:
                 continue
-            base = {"engine": "schedsim", "cluster": "sweep", "handle": handle, "threads": progs, "norm_cache": 128}
+            base = dict(base0)
             try:
                 solo = fork_call(eng.compute_ref, (eng._solo_desc({**base, "policy": {"kind": "solo"}}, t),), 120.0, "solo")
             except Exception:  # noqa: BLE001
